@@ -20,7 +20,7 @@ casts between unsigned types (transparent), `debug_assert*` (listed as comments)
 Anything outside the tables raises `Unsupported`."""
 from minirust import Unsupported
 
-RESERVED = {"end", "open", "at", "from", "next", "then", "else", "do", "fun", "have", "show", "let", "in", "if",
+RESERVED = {"meta", "end", "open", "at", "from", "next", "then", "else", "do", "fun", "have", "show", "let", "in", "if",
             "match", "with", "where", "type", "Type", "prefix", "local", "instance", "structure", "class", "def"}
 
 
@@ -582,6 +582,8 @@ class Tr:
     def macro(self, e, ctx, k):
         name, parts = e[1], e[2]
         from minirust import parse_expr_tokens, parse_pattern_tokens
+        if name in ("debug_assert", "debug_assert_eq") and getattr(self.tb, "debug_asserts", False):
+            name = name[6:]     # debug profile: checked like assert! / assert_eq!
         if name in ("debug_assert", "debug_assert_eq", "debug_assert_ne"):
             self.notes.append(f"{name}!({' , '.join(' '.join(str(t[1]) for t in p) for p in parts)}) not translated")
             return k("()")
@@ -634,7 +636,22 @@ class Tr:
             raise Unsupported(f"{self.fname}: assignment operator {op}")
 
         if op == "-=":
-            raise Unsupported(f"{self.fname}: -= (use checked form)")
+            # overflow-checked profile: `x -= r` panics when r > x
+            if not (lhs[0] == "field" and lhs[1][0] == "path" and len(lhs[1][1]) == 1):
+                raise Unsupported(f"{self.fname}: -= on {lhs!r}")
+            obj = lname(lhs[1][1][0])
+            tag = self.tb.vartypes.get(lhs[1][1][0])
+            proj = self.tb.fields.get((tag, lhs[2]), "." + lname(lhs[2]))
+            if proj == "":
+                raise Unsupported(f"{self.fname}: -= on a transparent field")
+
+            def with_r(r):
+                self.may_panic = True
+                return self.atomize(r, lambda r1: (
+                    "if", f"{r1} ≤ {obj}{proj}",
+                    ("let", obj, f"{{ {obj} with {proj[1:]} := {obj}{proj} - {r1} }}", k("()")),
+                    ctx.panic(self.site("attempt to subtract with overflow"))))
+            return self.ex(rhs, ctx, with_r)
         if lhs[0] == "path" and len(lhs[1]) == 1:
             n = lname(lhs[1][0])
             return self.ex(rhs, ctx, lambda r: ("let", n, newval(n, r), k("()")))
